@@ -186,6 +186,10 @@ class CrossHairFastLen(Unit):
 
 def units(tier):
     us = [CrossHairFastLen(150, 240) if tier == "quick" else CrossHairFastLen(1000, 1500)]
+    # fast_len(z) keeps exactly the first prev_fast_len(len(z)) samples, timestamps untouched (the unit lives in C01's harness:
+    # symbolic length, prev_fast_len uninterpreted in the symbolic run, the real one in replays)
+    from .C01 import FastLenCrop
+    us += [FastLenCrop("Signal"), FastLenCrop("BasebandSignal", with_t0=False)] + ([] if tier == "quick" else [FastLenCrop("FullStokesSignal")])
     if tier == "quick":
         edges = [0, 64, 256, 512, 1024, 2048, 4096, 8192] + [2**14 * k for k in range(1, 9)]
     else:
